@@ -251,6 +251,75 @@ R.add('L1.4', l14, [{}],
               'the genuine challenge response still completes the handshake (connect event for A)'],
       bounds='one forged datagram (free header fields, <= 5 arbitrary body bytes, or a hello-typed datagram with 3 arbitrary message bytes); 8 loop ticks')
 
+# ------------------------------------------------------------------ L1.6 the server gate for an established, quiet connection
+def l16():
+    """through the real server loop: an honest client at address A completes the handshake, then is quiet for an arbitrary
+    time below the connection timeout.  An attacker injects one unauthenticated datagram with A's address as its source
+    (any header type with a valid CRC, or a hello-typed datagram).  A's connection object stays in the pool with its key,
+    token and status, the handler sees no disconnect, and A's next genuine message is delivered to the application."""
+    from . import loop, c11
+    A = c11.A
+    pa = None
+    snap = {}
+    sent = []
+
+    def script(world, tick):
+        nonlocal pa
+        if tick == 1:
+            pa = loop.Peer(world, A)
+            pa.c._sendClientHello()
+            world.inject(pa.emit(), A)
+            return
+        if tick <= 5:
+            c11.loop_reply(world, pa)
+            return
+        if tick == 6:
+            sv = world.ctxt.connections.get(A)
+            if sv is not None:
+                snap['obj'] = sv
+                snap['before'] = (sv.session_key_bytes, sv.token, sv.status)
+                gap = symreal('quiet_for', lo=0, hi=4.5)          # below the 5 s connection timeout
+                world.clock.advance(gap)
+                kind = ['forged_header', 'tiny_hello'][choose(2, 'forged_kind')]
+                world.inject(c11.hostile(kind, tick, world, pa), A)
+            return
+        if tick == 7:
+            now = world.ctxt.connections.get(A)
+            snap['after_obj'] = now
+            if now is not None:
+                snap['after'] = (now.session_key_bytes, now.token, now.status)
+            snap['events7'] = list(world.handler.events)
+            pa.absorb()
+            p = b'still here after the forgery'
+            pa.c.send(p, RetryMode.NONE, None)
+            sent.append(p)
+        c11.loop_reply(world, pa)
+
+    world = loop.World(9, script)
+    world.run()
+    check(world.escaped is None, 'no exception leaves the server loop', escaped=repr(world.escaped))
+    check('obj' in snap, 'the honest client was connected before the forgery arrives')
+    check(snap.get('after_obj') is snap.get('obj'),
+          'an unauthenticated datagram does not remove or replace the established connection of the address it claims')
+    if 'after' in snap:
+        check(snap['after'][0] is snap['before'][0] and bool(snap['after'][1] == snap['before'][1]) and snap['after'][2] == snap['before'][2],
+              'key, token and status of the established connection are untouched by an unauthenticated datagram')
+    check(not any(e[0] == 'disconnect' and e[1].addr == A for e in snap.get('events7', [])),
+          'no disconnect event for the client whose address was forged')
+    ev = world.handler.events
+    check(len([e for e in ev if e[0] == 'connect' and e[1].addr == A]) == 1, 'exactly one connect event for the honest client')
+    check(len([e for e in ev if e[0] == 'message' and e[1] is snap.get('obj') and e[3] == sent[0]]) == 1 if sent else False,
+          "the honest client's next message is delivered on its original connection")
+
+
+R.add('L1.6', l16, [{}],
+      desc='real server loop: forged CRC datagram (any type / hello-typed) from the address of an established connection that has been '
+           'quiet for 0..4.5 s: connection object, key, token, status untouched, no disconnect event, the next genuine message is delivered',
+      expect=['an unauthenticated datagram does not remove or replace the established connection of the address it claims',
+              "the honest client's next message is delivered on its original connection"],
+      bounds='one forged datagram (free header fields, <= 5 arbitrary body bytes, or a hello-typed datagram with 3 arbitrary message bytes); '
+             'quiet time any real in [0, 4.5] s; 9 loop ticks')
+
 # ------------------------------------------------------------------ L1.5 a real hello does not open the door for its neighbours
 # keyless server-side connection, one clear-text datagram with two inner messages, the *real* hello handler (which installs
 # the session key while the datagram is still being processed): whatever travels next to the hello is not processed.
@@ -266,6 +335,7 @@ R.add('L1.5', _c02.l24, [dict(count=2)],
 import sys as _sys  # noqa: E402
 from . import loop as _loop, c11 as _c11  # noqa: E402
 R.lemmas['L1.4'].replay = generic_replay(l14, [proto, _loop, _c11, _sys.modules[__name__]], patches=_c11.LOOPPATCH)
+R.lemmas['L1.6'].replay = generic_replay(l16, [proto, _loop, _c11, _sys.modules[__name__]], patches=_c11.LOOPPATCH)
 R.lemmas['L1.5'].replay = generic_replay(_c02.l24, [proto, _c02, _sys.modules[__name__]])
 for _l in R.lemmas.values():
     if _l.replay is None:
